@@ -370,6 +370,19 @@ else:
     L.append("/-- translation of `RoundingMode::needs_trailing_zeros` -/")
     L.append(ntz)
 L.append("")
+npl = dict(site_ids).get("displayNoPadLimit", "MISSING")
+if re.fullmatch(r"\d+", npl):
+    npl_expr = npl
+elif npl == "EXPONENTIAL_FORMAT_TRAILING_ZERO_THRESHOLD":
+    npl_expr = "cfg.highThreshold"
+elif npl == "FMT_MAX_INTEGER_PADDING":
+    npl_expr = "cfg.maxPadding"
+else:
+    missing.append("displayNoPadLimit")
+    npl_expr = "0"
+L.append("/-- `zero_right_pad_integer_ascii_digits`: zero count above which an integer is not padded when no precision is given -/")
+L.append("def noPadLimit (cfg : Config) : Nat := %s" % npl_expr)
+L.append("")
 L.append("/-- identifiers referenced at the implicit-default sites (C20) -/")
 L.append("def defaultSites : List (String × String) := [")
 L.append(",\n".join('  ("%s", "%s")' % (a, b.replace('"', "'")) for a, b in site_ids))
